@@ -11,3 +11,5 @@ pub assume_specification<T, E, F: FnOnce(E) -> T>[ Result::<T, E>::unwrap_or_els
 pub assume_specification<T, U, F: FnOnce(T) -> U>[ Option::<T>::map_or ](o: Option<T>, default: U, f: F) -> (r: U)
     requires o is Some ==> f.requires((o->Some_0,)),
     ensures o is None ==> r == default, o is Some ==> f.ensures((o->Some_0,), r);
+pub assume_specification<'a, T: Copy>[ Option::<&'a T>::copied ](o: Option<&'a T>) -> (r: Option<T>)
+    ensures r == match o { Some(x) => Some(*x), None => None };
